@@ -29,6 +29,8 @@ CONSTANTS Cap0,        \* first capacity of bufadd / arrayadd (256)
           ObjCap,      \* LEN(p->obj) in init.c (32)
           DescCap,     \* sizeof(want), sizeof(got) in token.c (64)
           MaxParam,    \* macro parameters / arguments explored
+          NObjHash,    \* number of object-like replacement lists containing # / ## rendered by the harness
+          HashHash,    \* which of them (0-based) contain ## (not implemented by cproc: status left open)
           NGuard,      \* number of range-guard probes rendered by the harness (eval.c float->int, decl.c array size, ...)
           BigLens,     \* large token lengths named by the property (beyond MaxLen; same growth rule)
           Depths       \* nesting depths named by the property
@@ -155,8 +157,13 @@ ArityCases ==
   {[fam |-> "arity", n |-> ((((np * 2 + v) * 3 + body) * 8 + na) * 2 + e), class |-> ArgClass(np + v, na, v = 1), held |-> -1] :
       np \in 0..MaxParam, v \in {0, 1}, body \in 0..2, na \in 0..(MaxParam + 2), e \in {0, 1}}
 
+(* Object-like macros whose replacement list contains # or ##: there they are ordinary tokens, never operators.  Each *)
+(* list is expanded in text, twice, as an argument (pre-expansion), through a stringifying macro, nested, after an     *)
+(* unexpanding #, followed by "(" and across lines; -E must print it (class 0); ## is not implemented by cproc (open).  *)
+ObjHashCases == {[fam |-> "objhash", n |-> 8 * b + u, class |-> IF b \in HashHash THEN 2 ELSE 0, held |-> -1] : b \in 0..(NObjHash - 1), u \in 0..7}
+
 Cases ==
-       EscCases \cup {c \in ArityCases : LET na == (c.n \div 2) % 8 np == c.n \div 96 IN na <= np + 2 /\ (c.n % 2 = 1 => na >= 2)} \cup
+       ObjHashCases \cup EscCases \cup {c \in ArityCases : LET na == (c.n \div 2) % 8 np == c.n \div 96 IN na <= np + 2 /\ (c.n % 2 = 1 => na >= 2)} \cup
        {[fam |-> f, n |-> n, class |-> 0, held |-> -1] : f \in {"ident", "string", "ppnumber", "floatconst", "comment", "escstring"}, n \in {k \in TokLens : k >= 1}}
   \cup {[fam |-> f, n |-> n, class |-> 0, held |-> -1] : f \in {"macrobody", "macrochain", "macroargtoks", "callargs", "strconcat", "peeknl", "initlist", "params"}, n \in Counts}
   \cup {[fam |-> "stringize", n |-> n, class |-> 0, held |-> -1] : n \in {k \in TokLens : k >= 1 /\ k \notin BigLens}}
